@@ -10,6 +10,7 @@ Registration half: `Server/Registry.lean` (see second part) and the end-to-end `
 -/
 import SeliumModel.Lemmas.PubSubHealthy
 import SeliumModel.Lemmas.ReqRepMore
+import SeliumModel.Server.Registry
 
 namespace Selium.Route
 open Selium.Sink
@@ -52,8 +53,139 @@ example : (rrExec exOdd).handed = [(0, .msg (some [("cid", "0")]) 7)] ∧
 
 end Selium.Route
 
+
+/-! ## Registration half: `handle_stream` -/
+namespace Selium.Server
+open Selium Selium.Topic Selium.Gen.Server
+
+/-- obligations on the facts read from the source -/
+theorem checks_pattern : checksPattern = true ∧ topicPatternMismatch.isSome = true := by decide
+
+/-- Every stream that is acknowledged with Ok is served in the role it asked for: its socket is handed to the
+    router of that topic, which exists and has the pattern of that role. -/
+theorem c11_ok_means_served (r : Registry) (f : Option First) (h : (handleStream r f).answer = .ok) :
+    ∃ role name, f = some (.register role name) ∧ (handleStream r f).enqueued = some (name, role) ∧
+      (handleStream r f).registry.lookup name = some role.pattern ∧ (handleStream r f).panicked = false := by
+  unfold handleStream at h ⊢
+  cases f with
+  | none => simp at h
+  | some fr =>
+    cases fr with
+    | other => simp at h
+    | register role name =>
+      simp only at h ⊢
+      by_cases hv : (!isValid name.ns name.tp) = true
+      · simp [hv] at h
+      · simp only [hv, Bool.false_eq_true, if_false] at h ⊢
+        cases hl : r.lookup name with
+        | none =>
+          simp only [hl] at h ⊢
+          refine ⟨role, name, rfl, rfl, ?_, trivial⟩
+          unfold Registry.lookup at hl ⊢
+          have hnone : r.find? (·.1 = name) = none := by
+            cases hf : r.find? (·.1 = name) with
+            | none => rfl
+            | some x => simp [hf] at hl
+          simp [List.find?_append, hnone]
+        | some p =>
+          simp only [hl] at h ⊢
+          by_cases hp : p = role.pattern
+          · simp only [hp, if_true] at h ⊢
+            exact ⟨role, name, rfl, rfl, by rw [hl, hp], trivial⟩
+          · simp [hp, checks_pattern.1] at h
+
+/-- A registration that is not served is refused explicitly, with an error frame carrying a code: an invalid
+    name with INVALID_TOPIC_NAME, a role of the other messaging pattern with TOPIC_PATTERN_MISMATCH; the
+    handler never panics and nothing is enqueued. -/
+theorem c11_refusal_has_code (r : Registry) (role : Role) (name : Name)
+    (h : (handleStream r (some (.register role name))).answer ≠ .ok) :
+    ((handleStream r (some (.register role name))).answer = .error invalidTopicName ∨
+     (handleStream r (some (.register role name))).answer = .error (topicPatternMismatch.getD unknownError)) ∧
+    (handleStream r (some (.register role name))).enqueued = none ∧
+    (handleStream r (some (.register role name))).panicked = false ∧
+    (handleStream r (some (.register role name))).registry = r := by
+  unfold handleStream at h ⊢
+  simp only at h ⊢
+  by_cases hv : (!isValid name.ns name.tp) = true
+  · simp [hv]
+  · simp only [hv, Bool.false_eq_true, if_false] at h ⊢
+    cases hl : r.lookup name with
+    | none => simp [hl] at h
+    | some p =>
+      simp only [hl] at h ⊢
+      by_cases hp : p = role.pattern
+      · simp [hp] at h
+      · simp [hp, checks_pattern.1]
+
+/-- The server applies the topic-name rule of C07 to names arriving on the wire: INVALID_TOPIC_NAME exactly
+    for the names `is_valid` rejects, and no topic is created for them. -/
+theorem c07_server_enforces_rule (r : Registry) (role : Role) (name : Name) :
+    ((handleStream r (some (.register role name))).answer = .error invalidTopicName ↔ isValid name.ns name.tp = false) ∨
+    topicPatternMismatch.getD unknownError = invalidTopicName := by
+  left
+  unfold handleStream
+  simp only
+  cases hv : isValid name.ns name.tp with
+  | false => simp
+  | true =>
+    simp only [Bool.not_true, Bool.false_eq_true, if_false]
+    cases hl : r.lookup name with
+    | none => simp
+    | some p =>
+      simp only
+      by_cases hp : p = role.pattern
+      · simp [hp]
+      · simp only [hp, if_false, checks_pattern.1, if_true]
+        have : topicPatternMismatch.getD unknownError ≠ invalidTopicName := by decide
+        simp [this]
+
+/-- Two different names never share a router: handling a stream for one name leaves every other name's entry
+    (its pattern, hence its router and channel) untouched, and a socket is only ever enqueued to the channel of
+    the name in its own registration frame. -/
+theorem c11_registry_isolation (r : Registry) (f : Option First) (other : Name)
+    (h : ∀ role, f ≠ some (.register role other)) :
+    (handleStream r f).registry.lookup other = r.lookup other ∧
+    ∀ role, (handleStream r f).enqueued ≠ some (other, role) := by
+  unfold handleStream
+  cases f with
+  | none => exact ⟨rfl, fun _ => by simp⟩
+  | some fr =>
+    cases fr with
+    | other => exact ⟨rfl, fun _ => by simp⟩
+    | register role name =>
+      have hne : name ≠ other := fun heq => h role (by rw [heq])
+      simp only
+      by_cases hv : (!isValid name.ns name.tp) = true
+      · simp [hv]
+      · simp only [hv, Bool.false_eq_true, if_false]
+        cases hl : r.lookup name with
+        | none =>
+          simp only
+          refine ⟨?_, fun role' => by simp [hne]⟩
+          unfold Registry.lookup
+          simp [List.find?_append, hne]
+        | some p =>
+          simp only
+          by_cases hp : p = role.pattern
+          · simp [hp, hne]
+          · simp [hp, checks_pattern.1]
+
+/-- A first frame that is not a registration asks for no role: the stream is closed without Ok (the client
+    library reports STREAM_CLOSED_PREMATURELY) and nothing changes. -/
+theorem c11_non_registration_closed (r : Registry) :
+    (handleStream r (some .other)).answer = .closed ∧ (handleStream r (some .other)).registry = r ∧
+    (handleStream r (some .other)).enqueued = none := ⟨rfl, rfl, rfl⟩
+
+end Selium.Server
+
 #print axioms Selium.Route.c11_reqrep_total
 #print axioms Selium.Route.c11_pubsub_total
 #print axioms Selium.Route.c11_unexpected_request_frame_skipped
 #print axioms Selium.Route.c11_unexpected_reply_frame_discarded
 #print axioms Selium.Route.c11_oversize_after_tag
+#print axioms Selium.Server.checks_pattern
+#print axioms Selium.Server.c11_ok_means_served
+#print axioms Selium.Server.c11_refusal_has_code
+#print axioms Selium.Server.c07_server_enforces_rule
+#print axioms Selium.Server.c11_registry_isolation
+#print axioms Selium.Server.c11_non_registration_closed
